@@ -310,11 +310,26 @@ func genHist(e *emitter, tier string, prop string) {
 	for _, c := range confs {
 		e.line(sexpConf(c))
 	}
+	// three version labels over ONE schema and a converter that renames nothing: ownership
+	// chains through nested items that alternate between versions (the add-back passes of
+	// prune), under the same oracles as the single-version histories
+	var mvid *histConf
+	if prop == "C01" || prop == "C02" || prop == "C03" {
+		sd := menu[1]
+		mvid = &histConf{id: "small3id", versions: []*versionDef{{name: "v1", sd: sd, tr: sd.roots[0]},
+			{name: "v2", sd: sd, tr: sd.roots[0]}, {name: "v3", sd: sd, tr: sd.roots[0]}}}
+		e.line(sexpConf(mvid))
+	}
 	n := 1600
 	if tier == "thorough" {
 		n = 24000
 	}
 	n /= shardCount
+	if mvid != nil {
+		for h := 0; h < n/10+1; h++ {
+			runNestingHist(e, mvid)
+		}
+	}
 	for h := 0; h < n; h++ {
 		var c *histConf
 		switch e.rng.Intn(6) {
@@ -336,6 +351,33 @@ func genHist(e *emitter, tier string, prop string) {
 			opts.degenerate = e.rng.Intn(2) == 0
 		}
 		runHistory(e, c, opts, prop)
+	}
+}
+
+func runNestingHist(e *emitter, c *histConf) {
+	st := newState(c, "v1")
+	for _, sp := range nestingSteps(e) {
+		var vObj interface{}
+		var tv *typed.TypedValue
+		if sp.apply {
+			vObj = sp.obj
+			tv = c.typedAt(sp.ver, vObj, false)
+		} else {
+			l1, ok := st.liveAt(c, "v1")
+			if !ok {
+				return
+			}
+			vObj = mergeTop(unstructuredOf(l1), sp.obj)
+			tv = c.typedAt(sp.ver, vObj, true)
+		}
+		if tv == nil {
+			return
+		}
+		if sp.apply {
+			st = emitApply(e, c, st, sp.mgr, sp.ver, vObj, tv)
+		} else {
+			st = emitUpdate(e, c, st, sp.mgr, sp.ver, vObj, tv)
+		}
 	}
 }
 
